@@ -41,7 +41,7 @@ func (li InactivityScores) HashTreeRoot(spec *common.Spec, hFn tree.HashFn) comm
 	}, length, uint64(spec.VALIDATOR_REGISTRY_LIMIT))
 }
 
-func (li InactivityScores) View(spec *common.Spec) (*ParticipationRegistryView, error) {
+func (li InactivityScores) View(spec *common.Spec) (*InactivityScoresView, error) {
 	typ := InactivityScoresType(spec)
 	var buf bytes.Buffer
 	if err := li.Serialize(spec, codec.NewEncodingWriter(&buf)); err != nil {
@@ -49,7 +49,7 @@ func (li InactivityScores) View(spec *common.Spec) (*ParticipationRegistryView, 
 	}
 	data := buf.Bytes()
 	dec := codec.NewDecodingReader(bytes.NewReader(data), uint64(len(data)))
-	return AsParticipationRegistry(typ.Deserialize(dec))
+	return AsInactivityScores(typ.Deserialize(dec))
 }
 
 func InactivityScoresType(spec *common.Spec) *BasicListTypeDef {
